@@ -864,7 +864,7 @@ func RunC10(c *core.Ctx) {
 			c.Inconclusive("cannot build %s: %v", cfg, err)
 			continue
 		}
-		rs, err := w.concurrentResources(c.Seed*977+int64(rI), 4, 20)
+		rs, err := w.concurrentResources(c.Seed*977+int64(rI), 4, 60)
 		if err != nil {
 			add(cfg, nil, err)
 		}
